@@ -609,13 +609,18 @@ class C20(Prop):
 
 class C05(Prop):
     id = "C05"; module = "Adsb.Theorems.C05"; design_ref = "5/C05"
+    modules = ["Adsb.Theorems.C05", "Adsb.Theorems.C05b"]
     deps = ["shape:get_position", "shape:positive_mod", "shape:get_lat_lon"]
     abs_tol = 1e-6
     rule = ("true positions on a lattice over the sphere, at the poles, the equator, the antimeridian, on both sides of each of the 58 NL transition "
             "latitudes and of latitude-zone boundaries, encoded exactly (Fractions) for an even and an odd report displaced by 0 / up to 2.9 NM, both orders: "
             "the implementation must return the latest true position within the quantisation error, or nothing when the two latitudes fall in different "
             "NL zones; random raw quadruples and boundary values compared with an exact-arithmetic decoder (none/some, value, range); equal parities")
-    claim = "cpr_nl tree = published NL table computed from the closed form (re-checked); equal parity gives none; model (exact Rat / Float instance of one definition) tied numerically to f64 code"
+    claim = ("cpr_global_decode / cpr_position_error: for ALL rational positions with |lat| <= 90, latitudes within 0.05 deg (3 NM) and longitudes within the stated fraction of a zone, "
+             "an even and an odd report produced by the DO-260B encoder decode, in either order, to exactly the latest report's position rounded to its own CPR grid (within half a bin, ~2.6 m), "
+             "longitude in [-180,180); different NL bands give none (zone_mismatch_none); re-encoding gives the transmitted values (reencode_lat/lon); every returned position is in range "
+             "(position_range); cpr_nl tree = published NL table (cprNl_eq_table, nl_tree_is_table re-checked against the source); equal parity gives none; "
+             "the exact Rat instance and the Float instance are one definition, tied numerically to the f64 code")
     note = "IEEE rounding of the f64 evaluation is not modelled; positions within 1e-9 deg of an NL transition / +-90 are treated as borderline in the comparison"
     def equal(self, a, m): return a == m or numeq(a, m, 1e-6)
     def _pair(self, p_even, p_odd, first_is_even):
